@@ -60,7 +60,8 @@ def getReadersFromUrls(*sourceUrls, **options):
                 readers.append(ZipReader(filePath).setOptions(**options))
 
         elif mibSource.scheme in ('http', 'https'):
-            readers.append(HttpReader(mibSource.hostname or mibSource.netloc, mibSource.port or 80, mibSource.path,
+            readers.append(HttpReader(mibSource.hostname or mibSource.netloc,
+                                      mibSource.port or (mibSource.scheme == 'https' and 443 or 80), mibSource.path,
                                       ssl=mibSource.scheme == 'https').setOptions(**options))
 
         elif mibSource.scheme in ('ftp', 'sftp'):
